@@ -222,6 +222,11 @@ def run(ctx):
     try:
         def opts_fn(i, r):
             return jsgen.Opts(clean=(i % 2 == 0), unicode_idents=(i % 4 == 0), string_continuations=(i % 3 == 0))
+        from vk.gen import products
+        for idx, (key, text) in enumerate(products.lexical_products()):
+            if idx % ctx.nshards != ctx.shard or (idx // ctx.nshards) % ctx.pick(6, 1):
+                continue
+            check(ctx, synth, text, 'lexical_product')
         progs = work.Programs(ctx, ctx.pick(400, 9000), opts_fn=opts_fn)
         kinds = set()
         for text, meta in progs:
